@@ -22,7 +22,7 @@ RULE = ("one case = random map pipeline (1-5 functions, axes 1-3, zip/outer/redu
         "executor dict | patched default pool; file_array|dict|shared_memory_dict uniform or per-output; persist on/off; "
         "short writes, buffer sizes) x one seeded schedule; oracle relative to the sequential in-memory reference, which is itself compared with an independent "
         "reading of the workload (sim/interp.py: MapSpec index arithmetic without pipefunc code) and an independent call count from "
-        "the axis sizes; 30% of the cases map the same Pipeline object a second time under another configuration, 10% add a restricted run "
+        "the axis sizes; 30% of the cases map the same Pipeline object a second time under another configuration, about half use a Pipeline object that was mapped before on a data set of other sizes, 10% add a restricted run "
         "(fixed_indices) whose calls must all be calls of the full run; mapped root arrays may come from PipeFunc defaults (alone, or of another "
         "length and overridden by the input); for half of the thread-pool cases every source line of pipefunc's storage modules is "
         "a pre-emption point (sys.settrace), not only the seams; storages that need a folder are also used without run_folder. "
